@@ -96,6 +96,6 @@ theorem simp_fuel_irrelevant (n k : Nat) (st : SStack) (c : Nat) (e : Expr) (r :
   | succ k ih => exact (simp_fuelMono (n + k)).1 st c e r ih
 
 theorem simplify_fuel_irrelevant (n k c : Nat) (e : Expr) (r : Expr × Nat)
-    (h : simplify n c e = .ok r) : simplify (n + k) c e = .ok r := simp_fuel_irrelevant n k _ c e r h
+    (h : simplify n c e = .ok r) : simplify (n + k) c e = .ok r := simp_fuel_irrelevant n k _ _ e r h
 
 end Fadl
